@@ -22,7 +22,11 @@ class Timeout(Exception):
 _T0 = [0.0, 0.0]
 
 
+_NTIMEOUTS = [0]         # time limits hit in this process
+
+
 def _alarm(signum, frame):
+    _NTIMEOUTS[0] += 1
     raise Timeout('case exceeded its time limit (%s after %.1fs cpu, %.1fs wall)' % (
         'cpu timer' if signum == signal.SIGPROF else 'wall timer', time.process_time() - _T0[0], time.time() - _T0[1]))
 
@@ -31,6 +35,11 @@ def _alarm(signum, frame):
 def time_limit(seconds):
     """Raise Timeout inside the block after `seconds` of *CPU time of this process* (robust against a loaded
     machine), with a wall-clock backstop at 30x for code that blocks without using CPU."""
+    if _NTIMEOUTS[0] >= 4 and seconds <= 60:
+        # this process has already met several cases that do not terminate (each one is reported): the remaining cases
+        # get a short limit, so that a tree that hangs on most inputs costs minutes, not hours.  Candidates are
+        # re-run in fresh processes with the full limit before anything is reported.
+        seconds = min(seconds, 2.0)
     _T0[0], _T0[1] = time.process_time(), time.time()
     old_p = signal.signal(signal.SIGPROF, _alarm)
     old_a = signal.signal(signal.SIGALRM, _alarm)
